@@ -73,6 +73,9 @@ structure Env where
   rankOf : TypeKind → Str
   /-- `type(value).__qualname__` of user class `c`. -/
   qual : Nat → Str
+  /-- the declared field names of class `c`, in declaration order (used by the `Comparable`
+  class of the theorems only; no model function reads it). -/
+  fields : Nat → List Atom := fun _ => []
 
 /-! ### Equality (`eq`, `ne`) -/
 
